@@ -12,6 +12,9 @@ pub mod c09;
 pub mod c10;
 pub mod c11;
 pub mod c13;
+pub mod c15;
+pub mod c16;
+pub mod c19;
 pub mod c20;
 pub mod corpus_checks;
 
@@ -39,6 +42,9 @@ pub fn all() -> Vec<Prop> {
         Prop { id: "C10", run: c10::run, replay: c10::replay, self_test: common::self_test_codec },
         Prop { id: "C11", run: c11::run, replay: c11::replay, self_test: common::self_test_codec },
         Prop { id: "C13", run: c13::run, replay: c13::replay, self_test: common::self_test_codec },
+        Prop { id: "C15", run: c15::run, replay: c15::replay, self_test: common::self_test_schema },
+        Prop { id: "C16", run: c16::run, replay: c16::replay, self_test: common::self_test_schema },
+        Prop { id: "C19", run: c19::run, replay: c19::replay, self_test: common::self_test_schema },
         Prop { id: "C20", run: c20::run, replay: c20::replay, self_test: common::self_test_codec },
     ]
 }
